@@ -1,5 +1,6 @@
 import ScriggoV.Lemmas.ShowLift
 import ScriggoV.Lemmas.ShowNode
+import ScriggoV.Model.ShowDeclared
 /-! C09 — a show accepted by the type checker never fails at run time for its static type.
 
 `staticOK c t`: `checkShow` (with `checkShowJS/JSON`) accepts a show of an expression of type `t`
@@ -200,6 +201,48 @@ theorem last_operand_only_refuted : ¬ LastOperandOnlySuffices := by
 /-- and `loopOK` tells the two shapes apart -/
 theorem last_operand_only_not_loopOK : loopOK lastOperandOnlyLoop = false := by decide
 
+
+/-! ### types declared in the template: the method set of the static type is what is asked -/
+
+/-- **extracted fact.** Every `Implements` method of the types a template can create passes the
+receiver itself to the package-level `Implements`, which answers a `ScriggoType` by the empty
+method set. -/
+theorem declared_types_ask_receiver : declaredAsksReceiver = true := by decide
+
+/-- a declared type implements none of the thirteen interfaces, whatever its underlying type does -/
+theorem declared_type_method_set_empty (u : TInfo) (i : Iface) :
+    (declaredInfo declaredAsksReceiver u).impl i = false := by
+  simp [declaredInfo, declared_types_ask_receiver]
+
+theorem declaredInfo_eq_runtimeInfo : declaredInfo declaredAsksReceiver = runtimeInfo := by
+  funext u
+  simp [declaredInfo, runtimeInfo, declared_types_ask_receiver]
+
+/-- **C09 for declared types.** `t` describes the underlying type (any kind, any methods, any
+exact type, any components); the checker decides on what it learns of the declared type, the
+renderer meets the value in its method-less proxy: accepted ⇒ shown. -/
+theorem declared_accepted_never_fails (c : Ctx) (hc : c.valid = true) (t : TDesc)
+    (hw : (t.retop runtimeInfo).wf = true) (ha : dynAcceptedTop c (t.retop runtimeInfo) = true) :
+    staticOK c (t.retop (declaredInfo declaredAsksReceiver)) = true → dynOK c (t.retop runtimeInfo) = true := by
+  rw [declaredInfo_eq_runtimeInfo]
+  exact show_accepted_never_fails c hc _ hw ha
+
+/-- the variant in which the embedded underlying type is asked instead -/
+def AskingUnderlyingSuffices : Prop :=
+  ∀ (c : Ctx), c.valid = true → ∀ t : TDesc, (t.retop runtimeInfo).wf = true →
+    dynAcceptedTop c (t.retop runtimeInfo) = true →
+    staticOK c (t.retop (declaredInfo false)) = true → dynOK c (t.retop runtimeInfo) = true
+
+/-- `{% type T Time %}` with `Time` a struct with a `String` method, shown in HTML -/
+def tStructStringer : TInfo := ⟨.struct, .none, fun i => i == .stringer⟩
+
+/-- … is false: the show would be accepted and the struct could not be shown. -/
+theorem asking_underlying_refuted : ¬ AskingUnderlyingSuffices := by
+  intro h
+  have := h ⟨.html, false⟩ (by decide) (.struct tStructStringer .nil) (by decide) (by decide) (by decide)
+  revert this
+  decide
+
 /-! ### non-vacuity: concrete accepted descriptors -/
 
 def tInt : TInfo := ⟨.int, .none, fun _ => false⟩
@@ -229,5 +272,11 @@ accepted, one with an unshowable declared left operand is rejected although its 
 example : checkShowNode ⟨.html, false⟩ [[.typed (.basic tUintptr), .typed (.basic tInt)], [.absent, .typed (.basic tInt)]] = .accepted := by decide
 example : checkShowNode ⟨.html, false⟩ exDefaultChan = .cannotShow := by decide
 example : checkShowNode ⟨.html, false⟩ [[.absent, .typed (.basic tInt)], [.typed (.basic tInt), .untypedNil]] = .untypedNil := by decide
+
+/-- declared types: something is accepted (a declared type over an int kind, a declared struct in
+JavaScript), and the declared type over a Stringer struct is rejected in HTML -/
+example : staticOK ⟨.html, false⟩ (TDesc.retop (declaredInfo declaredAsksReceiver) (.basic tInt)) = true := by decide
+example : staticOK ⟨.js, false⟩ (TDesc.retop (declaredInfo declaredAsksReceiver) (.struct tStructStringer .nil)) = true := by decide
+example : staticOK ⟨.html, false⟩ (TDesc.retop (declaredInfo declaredAsksReceiver) (.struct tStructStringer .nil)) = false := by decide
 
 end ScriggoV.Show
